@@ -13,6 +13,7 @@ package main
 import (
 	"context"
 	"fmt"
+	"os"
 	"runtime"
 	"runtime/debug"
 	"sync"
@@ -38,7 +39,7 @@ func main() {
 // each case's PRNG is a function of (seed, case#) only.
 func layerHist(h *harness.H) {
 	h.AddRule("hist: one case = one cluster (1-3 nodes, name validation on/off) + a PRNG history of 10-40 batched " +
-		"create/rename/delete requests (tx and non-tx entry points, failing entries inside batches); " +
+		"create/rename/delete requests (tx and non-tx entry points, failing entries inside batches; thorough: also restarts of a node's distribution layer over its storage); " +
 		"distinct = hash of the request shapes; non-trivial = at least one successful create and one " +
 		"successful rename or delete, and >= 1 user channel compared across metadata and engine")
 	h.Assume("metadata on non-leaseholder nodes is eventually consistent (aspen gossip): the sweep is taken at a " +
@@ -57,7 +58,9 @@ func layerHist(h *harness.H) {
 		h.Eval()
 		ctx, cancel := context.WithCancel(context.Background())
 		defer cancel()
-		newRandomHistory(h, c, h.Rand("hist", c)).run(ctx)
+		hs := newRandomHistory(h, c, h.Rand("hist", c))
+		hs.restarts = h.Thorough() || os.Getenv("VERIF_C15_RESTARTS") == "1"
+		hs.run(ctx)
 	})
 }
 
